@@ -264,3 +264,17 @@ add('C05', 'multiword-overlapping-parts', MWD, "return [alpha_string[0:index], a
 add('C05', 'multiword-threshold-gt', MWD, "            if self._get_count(alpha_string[0:index]) >= self.threshold:", "            if self._get_count(alpha_string[0:index]) > 0:", 'fire', 'C05.R4')
 add('C05', 'counters-swapped', PARS, [("self._update_counter_len_indexed(self.count_digits, found_digit_strings)", "self._update_counter_len_indexed(self.count_other, found_digit_strings)")], None, 'fire', 'C05.R6')
 add('C05', 'email-index-space-known-only', 'lib_trainer/detection_rules/email_detection.py', "    working_string = section[0].lower()", "    working_string = section[0].lower()  ", 'silent')
+
+# ---- C20 ------------------------------------------------------------------------------------------------------
+ERF = 'edit_rules.py'
+add('C20', 'regex-0-3 (pinned defect)', ERF, [("        line = re.findall('[A-Z][0-9]*', line)\n        if not line:\n            print(f'Line containing invalid structure found {line}. Skipping.')\n            continue\n        \n        total_length = 0", "        line = re.findall('[A-Z][0-9]{0,3}', line)\n        if not line:\n            print(f'Line containing invalid structure found {line}. Skipping.')\n            continue\n        \n        total_length = 0")], None, 'fire', 'C20.R2')
+add('C20', 'second-write-target', ERF, "    with open(grammar_file, 'w') as grammar_fp:", "    open(grammar_file + '.bak', 'w').write(grammar)\n    with open(grammar_file, 'w') as grammar_fp:", 'fire', 'C20.R1')
+add('C20', 'copy-with-hardlinks', ERF, "    shutil.copytree(rule_dir, output_dir)", "    shutil.copytree(rule_dir, output_dir, copy_function=os.link)", 'fire', 'C20.R1')
+add('C20', 'copy-not-selected', ERF, "        config['rule'] = config['copy']\n", "", 'fire', 'C20.R1')
+add('C20', 'year-counted-as-2', ERF, "            elif x[0] == 'Y':\n                total_length += 4", "            elif x[0] == 'Y':\n                total_length += 2", 'fire', 'C20.R3')
+add('C20', 'digits-counted-as-1', ERF, "            elif x[0] == 'D':\n                total_length += int(x[1:])", "            elif x[0] == 'D':\n                total_length += 1", 'fire', 'C20.R3')
+add('C20', 'max-length-strict', ERF, "        elif total_length >= min_length and total_length <= max_length:", "        elif total_length >= min_length and total_length < max_length:", 'fire', 'C20.R5')
+add('C20', 'min-length-strict', ERF, "        elif total_length >= min_length and not max_length:", "        elif total_length > min_length and not max_length:", 'fire', 'C20.R5')
+add('C20', 'length-kernel-reordered-equivalent', ERF, "        elif total_length >= min_length and total_length <= max_length:", "        elif min_length <= total_length <= max_length:", 'silent')
+add('C20', 'terminal-set-any-instead-of-all', ERF, "            if x[0] not in terminal_set:\n                skip = True", "            if x[0] in terminal_set:\n                skip = False", 'fire', 'C20.R5')
+add('C20', 'prob-rewritten-rounded', ERF, [("        if not skip:\n            return_grammar += ''.join(line) + '\\t' + prob + '\\n'", "        if not skip:\n            return_grammar += ''.join(line) + '\\t' + str(round(float(prob), 6)) + '\\n'")], None, 'fire', 'C20.R4')
